@@ -101,7 +101,7 @@ Fixpoint cstr0 (l : list Z) : list Z :=
   match l with [] => [] | x :: r => if x =? 0 then [] else x :: cstr0 r end.
 
 (* strncmp(a, b, n) == 0 on C strings (the lists exclude the terminating NUL) *)
-Fixpoint strncmp_eq (a b : list Z) (n : nat) : bool :=
+Fixpoint strncmp_eq (a b : list Z) (n : nat) {struct n} : bool :=
   match n with
   | O => true
   | S n' => match a, b with
